@@ -423,6 +423,9 @@ CHECKS = {
             R('xbus', 'xbus'), R('bus', 'xbus'), R('xstar', 'xstar'), R('star', 'xstar'),
             T('MC_Mesh', 'Mesh_star.cfg', workers=8), T('MC_Mesh', 'Mesh_bus.cfg', workers=4),
             C('mesh', 'TestMesh', 'TraceMesh', trivial_len=3, n={'quick': 1, 'thorough': 6}),
+            C('meshscn', 'TestMesh', 'TraceMesh', file='mesh', trivial_len=3, n={'quick': 120, 'thorough': 1500},
+              scn=[('MC_MeshScn', {'quick': ['MeshScn_star.cfg', 'MeshScn_bus.cfg'], 'thorough': ['MeshScn_star.cfg', 'MeshScn_bus.cfg']})]),
+            T('MC_MeshScn', 'MeshAll_star.cfg', workers=8, tiers=('thorough',)), T('MC_MeshScn', 'MeshAll_bus.cfg', workers=8, tiers=('thorough',)),
             C('rawstorm', 'TestRawStorm', 'TraceBurst', trivial_len=0, n={'quick': 5000, 'thorough': 60000}),
         ],
         'assumptions': ASSUME_COMMON,
@@ -514,6 +517,9 @@ CHECKS = {
             C('hops', 'TestHops', 'TraceHops', trivial_len=3, vtimeout=3000),
             T('MC_Chain', 'Chain_twoway.cfg', workers=8), T('MC_Chain', 'Chain_ring.cfg', workers=8),
             C('chain', 'TestChain', 'TraceChain', trivial_len=3),
+            # STAR trees with every TTL assignment, BUS hubs (devices): the configurations are enumerated by TLC
+            C('meshscn', 'TestMesh', 'TraceMesh', file='mesh', trivial_len=3, n={'quick': 120, 'thorough': 1500},
+              scn=[('MC_MeshScn', {'quick': ['MeshScn_star.cfg', 'MeshScn_bus.cfg'], 'thorough': ['MeshScn_star.cfg', 'MeshScn_bus.cfg']})]),
         ],
         'rule': 'one injected message per (receiver, TTL, position of the terminating word or hop byte, number of complete '
                 'words available); the eight receivers are REP, XREP, RESPONDENT, XRESPONDENT, PAIR1, XPAIR1, STAR, XSTAR; '
